@@ -157,6 +157,15 @@ def worker_purity(repo, chk):
                     elif not _const_int(rs, m, repo):
                         nbad += 1
                         chk.bad('C09.2c', 'R10', f.site(n), ast.unparse(n)[:120], f'random_state of {d.split(".")[-1]} is not a constant integer ({ast.unparse(rs)}): a shared generator object advances with every task a worker handles, so scores depend on --num_threads and scheduling')
+            # mutating method calls on arguments or aliases of them (lst = param or []; lst.append(...))
+            if isinstance(n, ast.Call) and isinstance(n.func, ast.Attribute) and n.func.attr in ('append', 'extend', 'insert', 'pop', 'remove', 'clear', 'sort', 'reverse', 'update', 'add', 'discard', 'setdefault', 'popitem') \
+                    and isinstance(n.func.value, ast.Name) and not (f.module.name.endswith('ranking_mi_numba') or f.module.name.endswith('counting_cms')):
+                from ..match import local_aliases
+                pset = {p for p in f.params if p != 'self'}
+                al = pset | local_aliases(f, pset)
+                if n.func.value.id in al:
+                    nbad += 1
+                    chk.bad('C09.2d', 'R10', f.site(n), ast.unparse(n)[:100], f'{f.qualname} runs inside pool workers and mutates `{n.func.value.id}`, which is (or may alias) one of its arguments - an object captured by the worker closure and shared by all tasks a worker receives in one chunk: scores depend on chunking, i.e. on --num_threads')
             # writes to captured objects / arguments (args.x = ..., tmp_df[...] = ...)
             if isinstance(n, (ast.Assign, ast.AugAssign)):
                 tgs = n.targets if isinstance(n, ast.Assign) else [n.target]
@@ -404,6 +413,10 @@ def set_order(repo, chk):
                     chk.bad('C09.5', 'R10', f.site(n), ast.unparse(p)[:100], 'a string is joined in set order')
                 else:
                     chk.bad('C09.5', 'R10', f.site(n), ast.unparse(n)[:120], f'a list/dict is built by iterating the set `{ast.unparse(g.iter)[:50]}`: its order differs between processes (PYTHONHASHSEED) and reaches column order / candidate order (wrap the set in sorted())')
+            elif isinstance(n, ast.Call) and ((isinstance(n.func, ast.Name) and n.func.id in ('sorted', 'min', 'max')) or (f.module.dotted(n.func) or '') in ('heapq.nsmallest', 'heapq.nlargest')) \
+                    and any(k.arg == 'key' for k in n.keywords) and any(st.is_set(a) for a in n.args):
+                n_sites += 1
+                chk.bad('C09.5', 'R10', f.site(n), ast.unparse(n)[:120], 'a set is ordered by a key: elements with equal keys keep their set-iteration order (stable sort), which differs between processes (PYTHONHASHSEED) - so which elements come first / survive a prefix slice differs between runs (order the original list, or add the element itself as a tie-breaker)')
             elif isinstance(n, ast.Call) and isinstance(n.func, ast.Name) and n.func.id in ('list', 'tuple', 'enumerate', 'iter') and len(n.args) == 1 and st.is_set(n.args[0]):
                 n_sites += 1
                 p = par.get(n)
